@@ -61,6 +61,9 @@ def generate(rng, tier):
                               (b'il = {3, 4,}', b'il'), (b'il += {5}', b'il'), (b'il = 6', b'il'), (b'b = on', b'b'), (b'f = 1.5', b'f')):
                 n += 1
                 text = (cm + b' ' + item) if opt != b'sec|a' else item
+                if n % 3 == 0:
+                    # earlier tokens of the same scan: a long string, then a shorter one, then a comment
+                    text = b's = "' + b'L' * (20 + n % 50) + b'" s = "' + b'x' * (n % 7) + b'" # ' + b'c' * (n % 30) + b'\n' + text
                 lines = gen.prelude(SCHEMA, F['COMMENTS']) + ['init 1 0 %d' % F['COMMENTS'], 'parse_buf 0 ' + hx(text + b'\n'), 'dump 0', 'print 0 0',
                                                               'roundtrip 0 1', 'dump 1']
                 yield Scn('a%d' % n, lines, {'class': 'annotation/' + style, 'kind': 'annot', 'note': note, 'opt': opt, 'inside': True})
